@@ -107,6 +107,16 @@ Definition gaps_wide : list gap_row :=
     row_if "stmt-wide-model" k "" (N.lxor (wide_bits (fun m => lint_stmt k (lint_mode m))) (wide_obs bits))
     ++ row_if "stmt-wide-ref" k "" (N.lxor (wide_bits (fun m => forallb (ref_stmt k) (scopes_of m))) (wide_obs bits)) end) obs_stmts_wide.
 
+(* provenance of the left operand *)
+Definition opl_bits (f : string -> string -> bool) : N :=
+  fold_right (fun c acc => match c with (p, rt, fm) => if f rt fm then N.lor (N.shiftl 1 p) acc else acc end) 0 op_cells_left.
+Definition gaps_ops_left : list gap_row :=
+  flat_map (fun r => match r with (op, lty, lp, lint, interp) =>
+    let at_ := String.append lty (String.append ":" lp) in
+    row_if "opl-model" op at_ (N.lxor (opl_bits (lint_op_model op lty)) lint)
+    ++ row_if "opl-interp-model" op at_ (N.lxor (opl_bits (interp_op_model_left op lty lp)) interp)
+    ++ row_if "opl-interp" op at_ (N.ldiff lint interp) end) obs_ops_left.
+
 (* a value where a type is expected *)
 Definition gaps_coerce : list gap_row :=
   flat_map (fun r => match r with (cx, e, lint, interp) =>
@@ -126,12 +136,13 @@ Definition gaps_inferred : list gap_row :=
   inferred_gap_rows pair_masks obs_inferred ++ inferred_gap_rows triple_masks obs_inferred3.
 
 Definition all_gap_rows : list gap_row :=
-  gaps_tables ++ gaps_func_table ++ gaps_vars ++ gaps_var_types ++ gaps_funcs ++ gaps_stmts ++ gaps_ops ++ gaps_wide ++ gaps_coerce ++ gaps_inferred.
+  gaps_tables ++ gaps_func_table ++ gaps_vars ++ gaps_var_types ++ gaps_funcs ++ gaps_stmts ++ gaps_ops ++ gaps_wide ++ gaps_ops_left ++ gaps_coerce ++ gaps_inferred.
 
 Definition domain_sizes : list (string * N) :=
   [("variables", N.of_nat (List.length lint_var_flat)); ("variable rows", N.of_nat (List.length obs_vars));
    ("functions", N.of_nat (List.length lint_func_flat)); ("function rows", N.of_nat (List.length obs_funcs));
    ("statement rows", N.of_nat (List.length obs_stmts)); ("operator rows", N.of_nat (List.length obs_ops));
    ("operator cells per row", N.of_nat (List.length op_cells_existing)); ("masks", N.of_nat (List.length masks45));
-   ("wide masks", N.of_nat (List.length obs_wide_masks)); ("coercion rows", N.of_nat (List.length obs_coerce));
+   ("wide masks", N.of_nat (List.length obs_wide_masks)); ("coercion rows", N.of_nat (List.length obs_coerce)); ("left-provenance rows", N.of_nat (List.length obs_ops_left));
+   ("left-provenance cells per row", N.of_nat (List.length op_cells_left));
    ("inferred-scope rows (x 36 pairs)", N.of_nat (List.length obs_inferred)); ("inferred-scope rows (x 84 triples)", N.of_nat (List.length obs_inferred3)); ("wide rows", N.of_nat (List.length obs_vars_wide + List.length obs_funcs_wide + List.length obs_stmts_wide))].
